@@ -32,6 +32,36 @@ Theorem C14_ser_nonvacuous :
 Proof. exact ser_examples. Qed.
 Print Assumptions C14_ser_nonvacuous.
 
+(* the same for ANY double format in effect (json_c_set_serialization_double_format global / per
+   thread, or a per-object format): whatever snprintf wrote, if the locale shows in it only as the
+   one separator byte between a ','/'.'-free prefix and a ','-free suffix (or not at all), the text
+   after the fix-up, the ".0" rule (format_drops_decimals) and NOZERO is that of the C locale *)
+Theorem C14_ser_fmt_locale_indep : forall (txt : numloc -> list byte) fmt c nz,
+  one_conversion txt ->
+  forall l, ser_double_fmt fmt c nz (txt l) = ser_double_fmt fmt c nz (txt NumC).
+Proof. exact ser_fmt_locale_indep. Qed.
+Print Assumptions C14_ser_fmt_locale_indep.
+
+Theorem C14_ser_fmt_nonvacuous :
+  one_conversion (txt_of [49] [53; 48; 48]) /\
+  ser_double_fmt (Some [37; 46; 51; 102]) DFin false (txt_of [49] [53; 48; 48] NumComma) = [49; 46; 53; 48; 48] /\
+  ser_double_fmt (Some [37; 46; 51; 102]) DFin true (txt_of [49] [53; 48; 48] NumComma) = [49; 46; 53] /\
+  ser_double_fmt (Some [37; 49; 48; 46; 50; 102]) DFin false (txt_of [32; 32; 32; 49] [53; 48] NumComma) = [32; 32; 32; 49; 46; 53; 48] /\
+  ser_double_fmt (Some [37; 46; 48; 102]) DFin false [50] = [50] /\
+  ser_double_fmt (Some [37; 103]) DFin false [50] = [50; 46; 48] /\
+  format_drops_decimals (Some [37; 46; 48; 102]) = false /\ format_drops_decimals (Some [37; 46; 51; 102]) = true /\
+  format_drops_decimals None = true.
+Proof. exact ser_fmt_examples. Qed.
+Print Assumptions C14_ser_fmt_nonvacuous.
+
+(* limit of the statement above, with its witness: a format with a literal comma before the number *)
+Theorem C14_ser_fmt_literal_comma_dependent :
+  let txt := fun l => [120; 44; 49] ++ sep_of l :: [53; 48] in
+  ser_double_fmt (Some [120; 44; 37; 46; 50; 102]) DFin false (txt NumC) = [120; 46; 49; 46; 53; 48] /\
+  ser_double_fmt (Some [120; 44; 37; 46; 50; 102]) DFin false (txt NumComma) = [120; 46; 49; 44; 53; 48].
+Proof. exact ser_fmt_literal_comma_dependent. Qed.
+Print Assumptions C14_ser_fmt_literal_comma_dependent.
+
 (* ---- parser: the locale protocol over the regenerated exits *)
 
 (* the translator recognised the shape of json_tokener_parse_ex *)
